@@ -7,6 +7,7 @@ import (
 	"fmt"
 	"io"
 	"math"
+	"os"
 	"os/exec"
 	"strconv"
 	"strings"
@@ -243,6 +244,13 @@ func (s *Solver) Check(extras []*Term, want []*Term) (string, []ModelVal) {
 		}
 	}
 	s.send("(pop 1)\n")
+	if el := time.Since(t0).Seconds(); el > 3 && os.Getenv("GOSMT_SLOWQ") != "" {
+		var ds []string
+		for _, e := range extras {
+			ds = append(ds, e.String())
+		}
+		fmt.Fprintf(os.Stderr, "SLOW QUERY %.1fs res=%s pc=%d extras=%s\n", el, res, s.pcN, strings.Join(ds, " ; "))
+	}
 	s.stats.Seconds += time.Since(t0).Seconds()
 	switch res {
 	case "sat":
